@@ -18,11 +18,24 @@ def replay(info, ce):
     x = np.array([_num(v) for v in inp.get('x', [0.5, -0.25])], dtype=float)
     dt = _num(inp.get('dt', 1.0))
     m = _num(inp.get('m', 1.0)) if info['entry'].endswith('/m') else 1.0
-    label = 'a label with spaces'
+    labels = [info['label']] if info.get('label') is not None else ['a label with spaces', '  station 12 ', 'x', '', ' ', 'tab\tinside and at the end\t']
+    for label in labels:
+        r = _one(info, x, dt, m, label)
+        if r['status'] == 'confirmed':
+            return r
+    return r
+
+
+def _one(info, x, dt, m, label):
+    import eqsig
+    from eqsig import loader
     d = tempfile.mkdtemp(prefix='pyvc_c16_')
     path = os.path.join(d, 'motion.txt')
     try:
-        loader.save_values_and_dt(path, x, dt, label)
+        if info.get('saver') == 'save_signal':
+            loader.save_signal(path, eqsig.AccSignal(x, dt, label=label))
+        else:
+            loader.save_values_and_dt(path, x, dt, label)
         entry = info['entry']
         try:
             if entry == 'load_values_and_dt':
@@ -46,6 +59,8 @@ def replay(info, ce):
                         detail='saving values=%s, dt=%r and loading with %s raised %s' % (x.tolist(), dt, entry, type(e).__name__))
         vals = np.atleast_1d(np.asarray(vals))
         bad = []
+        if entry.endswith('/label') and s.label != label:
+            bad.append('label saved %r loaded %r' % (label, s.label))
         if abs(ldt - dt) > 0.5e-4 + 1e-12:
             bad.append('dt saved %r loaded %r' % (dt, ldt))
         if vals.shape != x.shape:
